@@ -173,7 +173,7 @@ func (s *c11Stream) hotOffsets() []int {
 }
 
 func TestC11(t *testing.T) {
-	V.Rule("unit: concatenations of 1-8 generated messages (tiny ones for complete cut enumeration; large ones with header lines up to 20 KiB clustered around the 4096/8192 reader window, bodies up to 60 KiB incl. SIP-looking text and bodies ending in CR/LF, CRLF or LF line ends, 0-3 keep-alive CRLFs around them) decoded through the product's receive loop from a scripted reader that returns exactly the chosen segments; every header-line length within 20 bytes of the first five multiples of the 4096-byte reader window (CRLF and LF, three positions, three segmentations); all single and double cuts for short streams, recipe-generated multi-cuts (random, 1-byte runs, fixed sizes, cuts around every CR/LF/window/body boundary) otherwise; non-trivial = >=2 messages with a cut inside a header line or CRLF, or a line longer than the 4096-byte window; distinct by (stream, segmentation recipe)")
+	V.Rule("lab: besides client streams to the listeners, the response streams the proxy reads from TCP connections it opened itself (2-6 statically routed requests reuse one connection to a harness hop, which writes all responses back as one stream in scripted segments; each must reach the user agent once, intact). unit: concatenations of 1-8 generated messages (tiny ones for complete cut enumeration; large ones with header lines up to 20 KiB clustered around the 4096/8192 reader window, bodies up to 60 KiB incl. SIP-looking text and bodies ending in CR/LF, CRLF or LF line ends, 0-3 keep-alive CRLFs around them) decoded through the product's receive loop from a scripted reader that returns exactly the chosen segments; every header-line length within 20 bytes of the first five multiples of the 4096-byte reader window (CRLF and LF, three positions, three segmentations); all single and double cuts for short streams, recipe-generated multi-cuts (random, 1-byte runs, fixed sizes, cuts around every CR/LF/window/body boundary) otherwise; non-trivial = >=2 messages with a cut inside a header line or CRLF, or a line longer than the 4096-byte window; distinct by (stream, segmentation recipe)")
 	V.Assume("header values are compared modulo surrounding SP/HTAB")
 	V.Require("window-length enumeration", ">=2 messages", "line > 4096 bytes", "cut inside CRLF", "LF-only message", "keep-alive present")
 
@@ -478,6 +478,170 @@ func c11Lab(t *testing.T) {
 		}
 		if len(got) != n {
 			failf(rt, "%d messages were relayed for a stream of %d messages", len(got), n)
+		}
+	})
+	c11ReturnStreams(t, s)
+}
+
+// c11ReturnStreams: the byte streams the proxy reads from connections it opened
+// itself. Requests with a static TCP route make the proxy connect to a harness
+// hop and reuse that connection; the hop then writes the responses to all of
+// them back as one stream in scripted segments. Every response must come out
+// at the user agent exactly once and intact, whatever the segmentation and
+// however often the connection has been used before.
+func c11ReturnStreams(t *testing.T, s *stdSvc) {
+	V.Require("lab: segmented response stream on a proxy-opened connection relayed intact")
+	// the hop must be known to the proxy, otherwise it does not put itself into
+	// the Via chain and the responses would not come back through it
+	if err := s.primeHops(); err != nil {
+		V.HarnessError(t, "priming: %v", err)
+	}
+	rcheck(t, "lab-return-streams", V.N(30, 400), func(rt *rapid.T) {
+		l := s.in.cfg.Listens[0]
+		ua := s.uas[rapid.IntRange(0, 3).Draw(rt, "ua")]
+		k := rapid.IntRange(2, 6).Draw(rt, "requests")
+		send := func(b []byte) error { return ua.sendUDP(l.Addr, l.UDPPort, b) }
+		var reqs []labRx
+		for i := 0; i < k; i++ {
+			id := s.nextID("c11r-")
+			wire := []byte(fmt.Sprintf("MESSAGE sip:x@r.wtcp.test SIP/2.0\r\nVia: SIP/2.0/UDP %s:5060;branch=z9hG4bK%s;rport\r\nMax-Forwards: 70\r\nFrom: <sip:a@a.example>;tag=%s\r\nTo: <sip:x@r.wtcp.test>\r\nCall-ID: %s\r\nCSeq: 1 MESSAGE\r\nContent-Length: 0\r\n\r\n", ua.ip, id, id, id))
+			s.model.learnRequest(s.model.transport(0, "udp"), ua.ip, &AMsg{IsReq: true, Hdrs: []AHdr{{Kind: hVia, Vias: []AVia{{Host: ua.ip}}}}})
+			s.in.expect(wire)
+			if err := send(wire); err != nil {
+				V.HarnessError(rt, "send: %v", err)
+			}
+			rs, err := s.in.settle(send, 1)
+			if _, lost := err.(labLost); lost {
+				failf(rt, "%v", err)
+			} else if err != nil {
+				V.HarnessError(rt, "%v", err)
+			}
+			got := labMessages(rs)
+			if len(got) != 1 || got[0].tcp == nil || got[0].ep == nil || got[0].ep.ip != s.ip(24) || got[0].ep.port != 5070 {
+				return // where a statically routed request goes is C03's and C18's subject
+			}
+			if len(got[0].msg.Entries(hVia)) != 2 {
+				return // the proxy did not insert itself (C06's subject): no response path through it
+			}
+			reqs = append(reqs, got[0])
+		}
+		conn := reqs[len(reqs)-1].tcp
+		if conn.isDead() {
+			return
+		}
+		type exp struct {
+			id   string
+			body []byte
+		}
+		var exps []exp
+		var stream []byte
+		var wires [][]byte
+		for _, r := range reqs {
+			if r.tcp != conn {
+				continue
+			}
+			var body []byte
+			switch rapid.IntRange(0, 3).Draw(rt, "body kind") {
+			case 0:
+			case 1:
+				body = []byte(strings.Repeat("b", rapid.IntRange(1, 9000).Draw(rt, "body len")))
+			case 2:
+				body = []byte("SIP/2.0 200 OK\r\nContent-Length: 0\r\n\r\nINVITE sip:x SIP/2.0\r\n\r\n")
+			default:
+				body = []byte(strings.Repeat("line\r\n", rapid.IntRange(1, 700).Draw(rt, "lines")))
+			}
+			long := ""
+			if rapid.IntRange(0, 3).Draw(rt, "long header") == 0 {
+				long = "X-Long: " + strings.Repeat("v", rapid.SampledFrom([]int{4000, 4085, 4086, 4087, 8190, 12000}).Draw(rt, "long len")) + "\r\n"
+			}
+			w := buildResponse(r.msg, 200, "OK", "t", long+"Content-Type: text/plain\r\n")
+			w = append(w[:len(w)-len("Content-Length: 0\r\n\r\n")], []byte(fmt.Sprintf("Content-Length: %d\r\n\r\n", len(body)))...)
+			w = append(w, body...)
+			id, _ := r.msg.First(hCallID)
+			exps = append(exps, exp{id, body})
+			if rapid.IntRange(0, 3).Draw(rt, "keep-alive") == 0 {
+				stream = append(stream, "\r\n"...)
+			}
+			stream = append(stream, w...)
+			wires = append(wires, w)
+		}
+		L := len(stream)
+		var cuts []int
+		switch rapid.IntRange(0, 3).Draw(rt, "recipe") {
+		case 0:
+			for i, n := 0, rapid.IntRange(1, 30).Draw(rt, "k"); i < n; i++ {
+				cuts = append(cuts, rapid.IntRange(1, L-1).Draw(rt, "cut"))
+			}
+		case 1:
+			sz := rapid.SampledFrom([]int{1, 7, 100, 1460, 4096, 4097}).Draw(rt, "size")
+			if sz < 100 && L > 3000 {
+				sz = 100
+			}
+			for i := sz; i < L; i += sz {
+				cuts = append(cuts, i)
+			}
+		case 2:
+			a := rapid.IntRange(1, L-1).Draw(rt, "from")
+			for i := a; i < a+60 && i < L; i++ {
+				cuts = append(cuts, i)
+			}
+		default: // one cut inside every message
+			o := 0
+			for _, w := range wires {
+				cuts = append(cuts, o+rapid.IntRange(1, len(w)-1).Draw(rt, "inner cut"))
+				o += len(w)
+			}
+		}
+		sort.Ints(cuts)
+		V.Journal(t.Name()+"/lab-return-streams", map[string]any{"requests_on_connection": len(exps), "stream_len": L, "cuts": c11ShortCuts(cuts)})
+		s.in.expect(wires...)
+		pos := 0
+		for _, cut := range append(cuts, L) {
+			if cut <= pos {
+				continue
+			}
+			if err := conn.send(stream[pos:cut]); err != nil {
+				failf(rt, "the proxy closed its own connection to the TCP hop in the middle of a well-formed response stream (after %d of %d bytes): %v", pos, L, err)
+			}
+			pos = cut
+			if len(cuts) < 200 {
+				time.Sleep(150 * time.Microsecond)
+			}
+		}
+		rs, err := s.in.settle(conn.send, len(exps))
+		if err != nil && strings.Contains(err.Error(), "could not send the barrier") {
+			// the hop's write failed: the proxy has closed its connection although
+			// every byte it was sent belongs to a well-formed message
+			failf(rt, "the proxy closed its own connection to the TCP hop after a well-formed response stream of %d messages (%d bytes, cuts %v, connection used for %d requests): %v", len(exps), L, c11ShortCuts(cuts), len(exps), err)
+		}
+		if _, lost := err.(labLost); lost {
+			failf(rt, "%v (response stream of %d messages, %d bytes, cuts %v, on a connection used for %d requests)", err, len(exps), L, c11ShortCuts(cuts), len(exps))
+		} else if err != nil {
+			V.HarnessError(rt, "%v", err)
+		}
+		got := labMessages(rs)
+		V.Class("lab: segmented response stream on a proxy-opened connection relayed intact")
+		V.NonTrivial(fmt.Sprintf("ret|%x|%v", hash64(string(stream)), c11ShortCuts(cuts)))
+		V.EvalN(len(exps))
+		byID := map[string][]labRx{}
+		for _, r := range got {
+			id, _ := r.msg.First(hCallID)
+			byID[id] = append(byID[id], r)
+		}
+		for i, e := range exps {
+			rs := byID[e.id]
+			if len(rs) != 1 {
+				failf(rt, "response %d of %d in the stream was relayed %d times (stream %d bytes, cuts %v, connection used for %d requests before); receptions:\n%s\nresponse as written by the hop: %s", i+1, len(exps), len(rs), L, c11ShortCuts(cuts), len(exps), labDescribe(got), jsonBytes(wires[i][:min(len(wires[i]), 700)]))
+			}
+			if rs[0].ep != ua {
+				failf(rt, "response %d of %d arrived at %s, not at the user agent that sent the request", i+1, len(exps), rs[0].where())
+			}
+			if string(rs[0].msg.Body) != string(e.body) {
+				failf(rt, "response %d of %d (cuts %v): body of %d bytes relayed as %d bytes: %s", i+1, len(exps), c11ShortCuts(cuts), len(e.body), len(rs[0].msg.Body), jsonBytes(rs[0].msg.Body[:min(len(rs[0].msg.Body), 200)]))
+			}
+		}
+		if len(got) != len(exps) {
+			failf(rt, "%d messages were relayed for a response stream of %d messages:\n%s", len(got), len(exps), labDescribe(got))
 		}
 	})
 }
